@@ -22,27 +22,29 @@ all multiplexers -/
 theorem cells_equal_objects (c : Cfg) (ops : List Op) :
     let s := after c ops
     s.cells.s1 = (liveSessions s .h1 : Int) ∧ s.cells.s2 = (liveSessions s .h2 : Int) ∧
+    s.cells.s3 = (liveSessions s .h3 : Int) ∧
     s.cells.tcp = (liveTcp s : Int) ∧ s.cells.udp = (liveUdp s : Int) := by
   exact (run_eq4 c ops).live
 
 /-- no gauge is ever negative -/
 theorem gauges_nonneg (c : Cfg) (ops : List Op) :
     let s := after c ops
-    0 ≤ s.cells.s1 ∧ 0 ≤ s.cells.s2 ∧ 0 ≤ s.cells.tcp ∧ 0 ≤ s.cells.udp := by
+    0 ≤ s.cells.s1 ∧ 0 ≤ s.cells.s2 ∧ 0 ≤ s.cells.s3 ∧ 0 ≤ s.cells.tcp ∧ 0 ≤ s.cells.udp := by
   intro s
-  obtain ⟨h1, h2, h3, h4⟩ := (run_eq4 c ops).live
-  refine ⟨?_, ?_, ?_, ?_⟩
-  · show 0 ≤ (after c ops).cells.s1; rw [show (after c ops).cells.s1 = _ from h1]; exact Int.natCast_nonneg _
-  · show 0 ≤ (after c ops).cells.s2; rw [show (after c ops).cells.s2 = _ from h2]; exact Int.natCast_nonneg _
-  · show 0 ≤ (after c ops).cells.tcp; rw [show (after c ops).cells.tcp = _ from h3]; exact Int.natCast_nonneg _
-  · show 0 ≤ (after c ops).cells.udp; rw [show (after c ops).cells.udp = _ from h4]; exact Int.natCast_nonneg _
+  obtain ⟨h1, h2, h3, h4, h5⟩ := (run_eq4 c ops).live
+  refine ⟨?_, ?_, ?_, ?_, ?_⟩
+  · show 0 ≤ (run c {} ops).cells.s1; omega
+  · show 0 ≤ (run c {} ops).cells.s2; omega
+  · show 0 ≤ (run c {} ops).cells.s3; omega
+  · show 0 ≤ (run c {} ops).cells.tcp; omega
+  · show 0 ≤ (run c {} ops).cells.udp; omega
 
 /-- **when all clients are gone** the session gauges and the UDP socket gauge are zero at once
 (a multiplexer ends with its client) ... -/
 theorem all_clients_gone_sessions_udp_zero (c : Cfg) (ops : List Op)
     (h : ∀ x ∈ (after c ops).sess, x.alive = false) :
     let s := after c ops
-    s.cells.s1 = 0 ∧ s.cells.s2 = 0 ∧ s.cells.udp = 0 := by
+    s.cells.s1 = 0 ∧ s.cells.s2 = 0 ∧ s.cells.s3 = 0 ∧ s.cells.udp = 0 := by
   exact gone_sessions_udp_zero (run_eq4 c ops) (run_inv2 c ops) h
 
 /-- ... and the TCP socket gauge is zero once the connect timeout and the idle timeout have run
@@ -52,9 +54,7 @@ theorem all_clients_gone_everything_zero (c : Cfg) (ops : List Op) (ms : Nat)
     (h : ∀ x ∈ (after c ops).sess, x.alive = false)
     (hi : 2 * c.tcpIdle ≤ ms) (he : c.establish ≤ ms) :
     let s := after c (ops ++ [.adv ms])
-    s.cells.s1 = 0 ∧ s.cells.s2 = 0 ∧ s.cells.tcp = 0 ∧ s.cells.udp = 0 := by
-  show (after c (ops ++ [.adv ms])).cells.s1 = 0 ∧ (after c (ops ++ [.adv ms])).cells.s2 = 0 ∧
-    (after c (ops ++ [.adv ms])).cells.tcp = 0 ∧ (after c (ops ++ [.adv ms])).cells.udp = 0
+    s.cells.s1 = 0 ∧ s.cells.s2 = 0 ∧ s.cells.s3 = 0 ∧ s.cells.tcp = 0 ∧ s.cells.udp = 0 := by
   unfold after at h ⊢
   rw [run_snoc]
   exact gone_everything_zero c ms _ (run_eq4 c ops) (run_inv2 c ops) h hi he
@@ -86,15 +86,11 @@ theorem hanging_connect_released_by_timeout (c : Cfg) (ops : List Op) (i ms : Na
 theorem counters_monotone (c : Cfg) (ops : List Op) (op : Op) :
     let a := (after c ops).cells
     let b := (after c (ops ++ [op])).cells
-    a.up1 ≤ b.up1 ∧ a.up2 ≤ b.up2 ∧ a.dn1 ≤ b.dn1 ∧ a.dn2 ≤ b.dn2 := by
-  show (after c ops).cells.up1 ≤ (after c (ops ++ [op])).cells.up1 ∧
-    (after c ops).cells.up2 ≤ (after c (ops ++ [op])).cells.up2 ∧
-    (after c ops).cells.dn1 ≤ (after c (ops ++ [op])).cells.dn1 ∧
-    (after c ops).cells.dn2 ≤ (after c (ops ++ [op])).cells.dn2
+    a.up1 ≤ b.up1 ∧ a.up2 ≤ b.up2 ∧ a.up3 ≤ b.up3 ∧ a.dn1 ≤ b.dn1 ∧ a.dn2 ≤ b.dn2 ∧ a.dn3 ≤ b.dn3 := by
   unfold after
   rw [run_snoc]
   have ok := step_ok c (run c {} ops) op
-  exact ⟨ok.up1, ok.up2, ok.dn1, ok.dn2⟩
+  exact ⟨ok.up1, ok.up2, ok.up3, ok.dn1, ok.dn2, ok.dn3⟩
 
 /-- **bytes relayed client -> origin on a relaying tunnel are added, exactly, to the counter of
 that session's protocol** and to nothing else -/
@@ -126,21 +122,17 @@ theorem no_relay_no_bytes (c : Cfg) (ops : List Op) (t n : Nat)
     (h : ∀ oe, ((after c ops).tuns.getD t default).st ≠ .open false false oe) :
     let a := (after c ops).cells
     let b := (after c (ops ++ [.up t n])).cells
-    b.up1 = a.up1 ∧ b.up2 = a.up2 ∧ b.dn1 = a.dn1 ∧ b.dn2 = a.dn2 := by
-  show (after c (ops ++ [.up t n])).cells.up1 = (after c ops).cells.up1 ∧
-    (after c (ops ++ [.up t n])).cells.up2 = (after c ops).cells.up2 ∧
-    (after c (ops ++ [.up t n])).cells.dn1 = (after c ops).cells.dn1 ∧
-    (after c (ops ++ [.up t n])).cells.dn2 = (after c ops).cells.dn2
+    b.up1 = a.up1 ∧ b.up2 = a.up2 ∧ b.up3 = a.up3 ∧ b.dn1 = a.dn1 ∧ b.dn2 = a.dn2 ∧ b.dn3 = a.dn3 := by
   unfold after at h ⊢
   rw [run_snoc]
   simp only [step]
-  exact ⟨trivial, trivial, trivial, trivial⟩
+  exact ⟨trivial, trivial, trivial, trivial, trivial, trivial⟩
 
-/-- **an HTTP/2 tunnel survives the origin's half-close and is over once both directions have
-ended**: the socket guard is held until then and released exactly once -/
+/-- **an HTTP/2 or HTTP/3 tunnel survives the origin's half-close and is over once both directions
+have ended**: the socket guard is held until then and released exactly once -/
 theorem half_closed_tunnel_released_when_both_ended (c : Cfg) (ops : List Op) (t : Nat)
     (h : ((after c ops).tuns.getD t default).st = .open false false false)
-    (hp : protoOf (after c ops) ((after c ops).tuns.getD t default).sess = .h2)
+    (hp : protoOf (after c ops) ((after c ops).tuns.getD t default).sess ≠ .h1)
     (ha : aliveS (after c ops) ((after c ops).tuns.getD t default).sess = true)
     (ht : t < (after c ops).tuns.length) :
     (after c (ops ++ [.tunClose t 's'])).cells.tcp = (after c ops).cells.tcp ∧
@@ -148,8 +140,7 @@ theorem half_closed_tunnel_released_when_both_ended (c : Cfg) (ops : List Op) (t
     (after c (ops ++ [.tunClose t 'g', .tunClose t 's'])).cells.tcp = (after c ops).cells.tcp - 1 := by
   unfold after at h hp ha ht ⊢
   have := half_close_both c (run c {} ops) t h hp ha ht
-  rw [run_snoc,
-    show ops ++ [Op.tunClose t 's', .tunClose t 'g'] = (ops ++ [.tunClose t 's']) ++ [.tunClose t 'g'] by simp,
+  rw [run_snoc, show ops ++ [Op.tunClose t 's', .tunClose t 'g'] = (ops ++ [.tunClose t 's']) ++ [.tunClose t 'g'] by simp,
     show ops ++ [Op.tunClose t 'g', .tunClose t 's'] = (ops ++ [.tunClose t 'g']) ++ [.tunClose t 's'] by simp,
     run_snoc, run_snoc, run_snoc, run_snoc]
   exact this
@@ -217,7 +208,11 @@ example :
     ∧ (after exCfg (ops ++ [.adv 120000])).cells.tcp = 0
     ∧ (after exCfg [.sessOpen .h2, .tunOpen 0 .origin, .tunClose 0 's', .up 0 5]).cells
         = { s1 := 0, s2 := 1, tcp := 1, udp := 0, up1 := 0, up2 := 5, dn1 := 0, dn2 := 0 }
-    ∧ (after exCfg [.sessOpen .h2, .tunOpen 0 .origin, .tunClose 0 's', .up 0 5, .tunClose 0 'g']).cells.tcp = 0 := by
+    ∧ (after exCfg [.sessOpen .h2, .tunOpen 0 .origin, .tunClose 0 's', .up 0 5, .tunClose 0 'g']).cells.tcp = 0
+    -- HTTP/3 sessions: multiplexed like HTTP/2, counted in their own cells
+    ∧ (after exCfg [.sessOpen .h3, .sessOpen .h3, .tunOpen 0 .origin, .tunOpen 0 .origin, .tunOpen 1 .origin, .up 0 40, .down 2 7,
+                    .tunClose 0 'g', .down 0 5, .tunClose 0 's', .sessClose 1]).cells
+        = { s1 := 0, s2 := 0, s3 := 1, tcp := 1, udp := 0, up3 := 40, dn3 := 12 } := by
   decide
 
 end TT.Metrics
